@@ -103,7 +103,7 @@ def body(case, stats):
 
 
 def worker(widx, seed, tier, stats):
-    n = {'quick': 12, 'thorough': 400}[tier]
+    n = {'quick': 12, 'thorough': 250}[tier]
     opts = gen.GenOpts(avoid=common.avoid_set(ID), max_decls=8, big_sizes=False, allow_unset=False, alias_focus=3, block_focus=4, oddunion_focus=3,
                        aligned_greedy=False)
     runner.run_given(gen.schema_with_values(opts, values_per_type=3), body, seed, n, stats,
